@@ -34,7 +34,7 @@ def rto_cases(draw, tier="quick"):
     c = {"n": n, "liks": liks, "prior": prior,
          "pform": draw(st.sampled_from(["cov_scalar", "cov_vector", "cov_matrix", "prec_vector", "sqrtprec_matrix", "sqrtcov_scalar"])),
          "pvar": draw(st.lists(gen.logpos(-0.7, 0.7), min_size=n, max_size=n)), "PG": draw(gen.mat(n, n, -0.4, 0.4)),
-         "pmean_kind": draw(st.sampled_from(["zero", "vector"])), "pmean": draw(gen.vec(n, -1, 1)),
+         "pmean_kind": draw(st.sampled_from(["zero", "vector", "scalar"])), "pmean": draw(gen.vec(n, -1, 1)),
          "gmrf_order": draw(st.sampled_from([1, 2])), "gmrf_prec": draw(gen.logpos(-0.5, 0.7)),
          "interface": draw(st.sampled_from(["experimental", "legacy", "legacy_tuple"])),
          "x0": draw(gen.vec(n, -2, 2)), "x0b": draw(gen.vec(n, -2, 2)),
@@ -42,7 +42,21 @@ def rto_cases(draw, tier="quick"):
          # overall scale of the prior standard deviations (1e-4: covariance entries ~1e-8 and smaller)
          "pscale_pow": draw(st.sampled_from([0, 0, 0, -4])),
          # the prior object was first set up with other values, used, and then given its values through the public setters
-         "prior_reassigned": draw(st.sampled_from([False, False, True]))}
+         "prior_reassigned": draw(st.sampled_from([False, False, True])),
+         # the likelihoods may all be built on ONE model object (same A, e.g. two data sets of the same experiment)
+         "shared_model": draw(st.sampled_from([False, False, True])),
+         # integer-typed variance vectors (noise variances written as ints)
+         "int_vars": draw(st.sampled_from([False, False, False, True]))}
+    if c["shared_model"] and len(liks) > 1:
+        for lk in liks[1:]:
+            lk["m"], lk["A"], lk["backing"] = liks[0]["m"], liks[0]["A"], liks[0]["backing"]
+            lk["var"] = (lk["var"] * 6)[:liks[0]["m"]]
+            lk["G"] = [row[:liks[0]["m"]] + [0.0] * max(0, liks[0]["m"] - len(row)) for row in (lk["G"] + [[0.0] * liks[0]["m"]] * liks[0]["m"])[:liks[0]["m"]]]
+            lk["data"] = (lk["data"] * 6)[:liks[0]["m"]]
+    if c["int_vars"]:
+        for lk in liks:
+            if lk["form"] == "cov_vector":
+                lk["var"] = [float(max(1, round(4 * v))) for v in lk["var"]]
     if c["interface"] == "legacy_tuple":
         c["liks"] = c["liks"][:1]
         c["prior"] = "gauss"
@@ -52,7 +66,9 @@ def rto_cases(draw, tier="quick"):
 def build_rto_target(c):
     import cuqi
     n = c["n"]
-    mu = A(c["pmean"]) if c["pmean_kind"] == "vector" else np.zeros(n)
+    mu = A(c["pmean"]) if c["pmean_kind"] == "vector" else (np.full(n, float(c["pmean"][0])) if c["pmean_kind"] == "scalar" else np.zeros(n))
+    # a scalar mean is handed over as a scalar (broadcast by the distribution over its geometry)
+    mu_arg = (lambda: float(c["pmean"][0])) if c["pmean_kind"] == "scalar" else (lambda: mu.copy())
     if c["prior"] == "gauss":
         pkw, Sx = c15.form_arg(c["pform"], c["pvar"], c["PG"])
         ps = 10.0 ** c.get("pscale_pow", 0)
@@ -68,7 +84,7 @@ def build_rto_target(c):
             x.mean = mu.copy()
             setattr(x, key, val)
         else:
-            x = cuqi.distribution.Gaussian(mu.copy(), **pkw, name="x")
+            x = cuqi.distribution.Gaussian(mu_arg(), **pkw, geometry=n, name="x")
         Pinv = np.linalg.inv(Sx)
     else:
         if c.get("prior_reassigned"):
@@ -81,14 +97,20 @@ def build_rto_target(c):
         D = c20.ref_D(n, "zero", c["gmrf_order"])
         Pinv = c["gmrf_prec"] * D.T @ D
     ys, parts = [], []
+    shared = None
     for i, lk in enumerate(c["liks"]):
         Am = A(lk["A"])
         m = lk["m"]
-        if lk["backing"] == "matrix":
+        if c.get("shared_model") and shared is not None:
+            model = shared
+        elif lk["backing"] == "matrix":
             model = cuqi.model.LinearModel(Am)
         else:
             model = cuqi.model.LinearModel((lambda M: (lambda v: M @ v))(Am), (lambda M: (lambda w: M.T @ w))(Am), range_geometry=m, domain_geometry=n)
+        shared = model
         nkw, Se = c15.form_arg(lk["form"], lk["var"], lk["G"])
+        if c.get("int_vars") and lk["form"] == "cov_vector":
+            nkw = {"cov": np.array([int(v) for v in lk["var"]])}
         ys.append(cuqi.distribution.Gaussian(model(x), **nkw, geometry=m, name=f"y{i}"))
         parts.append((Am, np.linalg.inv(Se), A(lk["data"])))
     J = cuqi.distribution.JointDistribution(*ys, x)
@@ -158,7 +180,8 @@ def _run_rto(c, rec):
                                                          any(lk["form"] != "cov_scalar" for lk in c["liks"]) or c["pform"] != "cov_scalar")
     tags = {"interface": c["interface"], "nlik": nl, "prior": c["prior"], "pmean": c["pmean_kind"],
             "backing": "+".join(sorted(set(lk["backing"] for lk in c["liks"]))), "sparse_switch": c.get("sparse_switch", "below"),
-            "pscale_pow": c.get("pscale_pow", 0), "prior_reassigned": bool(c.get("prior_reassigned"))}
+            "pscale_pow": c.get("pscale_pow", 0), "prior_reassigned": bool(c.get("prior_reassigned")),
+            "shared_model": bool(c.get("shared_model")) and nl > 1, "int_vars": bool(c.get("int_vars"))}
     if rec.classify(tags, nontriv):
         return
     refused, built = refuses(lambda: build_rto_target(c))
